@@ -209,7 +209,9 @@ func (s *ModelDiscoveryService) discoverConcurrently(ctx context.Context, endpoi
 		workerCount = len(endpoints)
 	}
 
-	eg, ctx := errgroup.WithContext(ctx)
+	// one endpoint's failure is that endpoint's business: the group must not cancel the listing
+	// requests of the others (errgroup.WithContext would, on the first error)
+	eg := &errgroup.Group{}
 	eg.SetLimit(workerCount)
 
 	for _, ep := range endpoints {
